@@ -271,7 +271,7 @@ Proof.
   { intros. unfold s1, c0. apply G_app. }
   assert (N0 : forall A (f : clo -> A) d, G f d s c0 = d) by (intros; apply G_none; unfold c0; lia).
   unfold enqueue. fold y. fold s1. fold c0.
-  destruct (exit_ s) eqn:EX.
+  destruct (exit_ s || throws k) eqn:EX.
   - (* rejected: dropped in the caller *)
     pose proof (drop1_rel i s1 [] c0) as D.
     set (s2 := fst (drop1 i (s1, []) c0)) in *.
@@ -605,9 +605,9 @@ Proof.
 Qed.
 
 Lemma enqueue_shell s t l k b : forall s', s' = fst (enqueue s t l k b) ->
-  queue s' = (if exit_ s then queue s else queue s ++ [length (clos s)]) /\ exit_ s' = exit_ s /\ stopped s' = stopped s /\
+  queue s' = (if exit_ s || throws k then queue s else queue s ++ [length (clos s)]) /\ exit_ s' = exit_ s /\ stopped s' = stopped s /\
   threads s' = threads s /\
-  tokens s' = (if exit_ s then tokens s else if Nat.ltb (tokens s + length (woken s)) (sleepers s) then S (tokens s) else tokens s) /\
+  tokens s' = (if exit_ s || throws k then tokens s else if Nat.ltb (tokens s + length (woken s)) (sleepers s) then S (tokens s) else tokens s) /\
   woken s' = woken s /\ destroyed s' = destroyed s /\ nclients s' = nclients s /\ thrs s' = thrs s /\
   cont s' = cont s /\ extw s' = extw s /\ uad s' = uad s /\ length (clos s') = S (length (clos s)) /\
   (forall c, G cb [] s' c = if Nat.eqb c (length (clos s)) then b else G cb [] s c) /\
@@ -617,7 +617,7 @@ Proof.
   intros s' ->. unfold enqueue.
   set (s1 := with_clos s (clos s ++ [mkClo l k b 0 0 0 0])).
   assert (L1 : length (clos s1) = S (length (clos s))) by (unfold s1, with_clos; cbn [clos]; rewrite app_length; cbn; lia).
-  destruct (exit_ s) eqn:EX.
+  destruct (exit_ s || throws k) eqn:EX.
   - pose proof (drop1_rel t s1 [] (length (clos s))) as D.
     destruct D as [h r o bb d cc]. destruct h as (hq & he & ht & hk & hd & hn & hth & hl & hs & hw & hc & hx & hu).
     rewrite hq, he, ht, hk, hd, hn, hth, hl, hs, hw, hc, hx, hu, L1.
@@ -773,7 +773,7 @@ Proof.
   - exact hn.
   - exact P1.
   - exact P2.
-  - rewrite he, hq, ht. intros X. rewrite X. apply (b_exit s B X).
+  - rewrite he, hq, ht. intros X. rewrite X. cbn [orb]. apply (b_exit s B X).
   - rewrite he, hd, hs. apply (b_destr s B).
   - rewrite he, hs. apply (b_stopped s B).
   - intros E Q. exfalso. apply (P3 E Q).
